@@ -4,6 +4,10 @@ import Blue.Proofs.SkipIter
 import Blue.Proofs.SkipMLMain
 import Blue.Proofs.SkipLife
 import Blue.Proofs.ListFreeIter
+import Blue.Proofs.ListFreeStable
+import Blue.Proofs.SkipRuns
+import Blue.Proofs.SkipIterate
+import Blue.Proofs.SkipOwn
 import Blue.Proofs.ConstsTieC17
 /-! # Property C17 — the lock-free skiplist loses no insert and always iterates in order; an
     iterator remains valid for as long as it is held; the same for the prepend-only list
@@ -18,7 +22,9 @@ Property theorems only (helper lemmas live in `Blue/Proofs/{SkipChain,SkipList,S
   a key that is neither linked nor being inserted (the property's "distinct keys").
 * `Blue.SkipList` — the level-0 part on its own (the search through the upper levels abstracted).
 * `Blue.ListFree` — `listfree::List::prepend`, one step per atomic access.
-* `Blue.SkipLife` — who keeps the nodes alive (the repaired ownership, finding D-4).
+* `Blue.SkipOwn` — who keeps the nodes alive, as a transition system (reference count, released set,
+  ghost use-after-free flag; the repaired ownership, finding D-4); `Blue.SkipLife` is the
+  definitional form of it that the check replays (`life_refines`).
 
 **Assumed, not proved**: the atomic accesses of different threads interleave sequentially
 consistently (the code uses `Acquire`/`Release`/`SeqCst`; weak memory is outside the model), and
@@ -48,9 +54,74 @@ theorem upper_levels_are_subchains {s : St} (h : Reach s) :
 theorem returned_insert_is_linked {s : St} (h : Reach s) : ∀ k ∈ s.returned, k ∈ s.inserted :=
   Blue.SkipML.returned_linked h
 
-/-- … and linked keys stay linked whatever step whichever thread takes -/
+/-- … and linked keys stay linked whatever step whichever thread takes (one step) -/
 theorem linked_stays_linked {s : St} (h : Reach s) (i : Nat) : ∀ k ∈ s.inserted, k ∈ (step s i).inserted :=
   Blue.SkipML.linked_stays_linked h i
+
+/-- … along every run: `Reaches s s'` = any number of calls (`insert`, `seek`, `contains`, `first`,
+    `last`, `next`, `prev` beginning on any thread) and steps of any threads, in any order -/
+theorem linked_stays_linked_run {s s' : St} (h : Reach s) (hr : Reaches s s') :
+    ∀ k ∈ s.inserted, k ∈ s'.inserted :=
+  Blue.SkipML.linked_stays_linked_run h hr
+
+/-- `Reaches` is the closure `Reach` is built from: every reachable state is reached from an
+    initial state, and what is reached from a reachable state is reachable -/
+theorem reaches_is_reach_closure {s : St} :
+    (Reach s → ∃ H T, 0 < H ∧ Reaches (init H T) s) ∧ (∀ s', Reach s → Reaches s s' → Reach s') :=
+  ⟨reaches_of_reach, fun _ h hr => reach_of_reaches h hr⟩
+
+/-- **no insert is lost, ever**: a key whose `insert` has returned is linked in every later state -/
+theorem returned_stays_linked {s s' : St} (h : Reach s) (hr : Reaches s s') :
+    ∀ k ∈ s.returned, k ∈ s'.inserted :=
+  Blue.SkipML.returned_stays_linked h hr
+
+/-- **the answer of `contains`**: at the last load of its `find_greater_or_equal` the boolean it
+    stores is `true` exactly when the key is linked at the time of that load -/
+theorem contains_answer {s : St} (h : Reach s) (i k x : Nat) (hpc : (th s i).pc = .geq k x 0 true)
+    (hstop : ∀ n, mnext s.heap 0 x = some n → ¬ mkey s.heap n < k) :
+    (th (step s i) i).pc = .idle ∧ ((th (step s i) i).found = true ↔ k ∈ s.inserted) :=
+  Blue.SkipML.contains_answer h i k x hpc hstop
+
+/-- **a returned insert is found by every later search**: whatever calls and steps of whichever
+    threads follow the return of `insert(k)`, a `contains(k)` doing its last load answers `true` … -/
+theorem returned_found_by_later_contains {s s' : St} (h : Reach s) (hr : Reaches s s') (k : Nat)
+    (hk : k ∈ s.returned) (i x : Nat) (hpc : (th s' i).pc = .geq k x 0 true)
+    (hstop : ∀ n, mnext s'.heap 0 x = some n → ¬ mkey s'.heap n < k) :
+    (th (step s' i) i).found = true :=
+  Blue.SkipML.returned_found_by_later_contains h hr k hk i x hpc hstop
+
+/-- … and a `seek(k)` doing its last load lands on the node of `k` -/
+theorem returned_found_by_later_seek {s s' : St} (h : Reach s) (hr : Reaches s s') (k : Nat)
+    (hk : k ∈ s.returned) (i x : Nat) (c : Bool) (hpc : (th s' i).pc = .geq k x 0 c)
+    (hstop : ∀ n, mnext s'.heap 0 x = some n → ¬ mkey s'.heap n < k) :
+    ∃ n, mnext s'.heap 0 x = some n ∧ mkey s'.heap n = k :=
+  Blue.SkipML.returned_found_by_later_seek h hr k hk i x c hpc hstop
+
+/-- **a returned insert is on the level-0 chain of every later state, once**: the walk from the
+    head along level 0 in any later state is strictly increasing in key and holds the key.  (A full
+    iteration by `next()` calls spread over several states: `iteration_complete` below.) -/
+theorem returned_in_later_chain {s s' : St} (h : Reach s) (hr : Reaches s s') :
+    ∃ ids0 : List Nat, chainFrom s'.heap 0 (ids0.length + 1) (mnext s'.heap 0 0) = ids0 ∧
+      (ids0.map (mkey s'.heap)).Pairwise (· < ·) ∧ ∀ k ∈ s.returned, k ∈ ids0.map (mkey s'.heap) :=
+  Blue.SkipML.returned_in_later_chain h hr
+
+/-- **a whole forward iteration, composed from its loads.**  `Iter i s x ks`: thread `i` stands
+    before the load of `next()` from node `x` in state `s` (`x = 0`: `seek_to_first`), and iterating on
+    until `next()` reaches the null pointer — any calls and steps of any threads between two loads —
+    yields the keys `ks`.  Then `ks` is strictly increasing (no key twice), lies above the key of
+    `x`, and holds every key that was linked when the iteration began and lies above the starting
+    point.  (That the iteration reaches the null pointer is part of `Iter`: termination under
+    concurrent inserts is not proved.) -/
+theorem iteration_complete {i : Nat} {s : St} {x : Nat} {ks : List Nat} (hit : Iter i s x ks) (h : Reach s) :
+    ks.Pairwise (· < ·) ∧ (x ≠ 0 → ∀ k ∈ ks, mkey s.heap x < k) ∧
+    ∀ k ∈ s.inserted, (x = 0 ∨ mkey s.heap x < k) → k ∈ ks :=
+  Blue.SkipML.iteration_complete hit h
+
+/-- **every returned insert appears in every later full iteration, exactly once**: an iteration
+    from the head begun in any state after `insert(k)` returned yields `k`, and no key twice -/
+theorem full_iteration_shows_returned {s0 s : St} (h0 : Reach s0) (hr : Reaches s0 s) {i : Nat} {ks : List Nat}
+    (hit : Iter i s 0 ks) : ks.Pairwise (· < ·) ∧ ∀ k ∈ s0.returned, k ∈ ks :=
+  Blue.SkipML.full_iteration_shows_returned h0 hr hit
 
 /-- neither assertion in the code (`insert` meeting its own key, `find_less_than` standing on a
     node not before the key) can fire -/
@@ -118,6 +189,60 @@ example : Reach (step (callSeek (callInsert (callInsert (init 2 3) 0 5 2) 1 3 1)
   .step 0 (.seek 2 4 (.insert 1 3 1 (.insert 0 5 2 (.init 2 3 (by decide)) (insertOk_sound (by decide)))
     (insertOk_sound (by decide))))
 
+/-! non-vacuity of `iterator_moves_*` and `contains_answer`: REACHABLE states in which a thread
+    stands at the last load of each search (the hypotheses `hpc` and `hstop` hold), continuing the
+    run above (`sS` = that run up to the seek's last load) -/
+section witnesses
+def wS0 : St := callSeek (callInsert (callInsert (init 2 3) 0 5 2) 1 3 1) 2 4
+theorem wS0_reach : Reach wS0 :=
+  .seek 2 4 (.insert 1 3 1 (.insert 0 5 2 (.init 2 3 (by decide)) (insertOk_sound (by decide)))
+    (insertOk_sound (by decide)))
+def wPre : List Nat := [0, 0, 0, 0, 1, 1, 1, 1, 1, 2, 0, 0, 0, 0, 0, 2, 0, 0]
+/-- `seek(4)` at its last load: stands on node 2 (key 3), loads node 1 (key 5) -/
+def wSeek : St := wPre.foldl step wS0
+/-- the seek has finished (iterator on key 5) -/
+def wDone : St := step wSeek 2
+theorem wDone_reach : Reach wDone := .step 2 (reach_steps wS0_reach wPre)
+/-- `prev()` from key 5 at the last load of `find_less_than(5)` -/
+def wPrev : St := step (step (callPrev wDone 2) 2) 2
+/-- `prev()` from the end at the last load of `find_last` -/
+def wLast : St := step (step (callPrev (callLast wDone 2) 2) 2) 2
+/-- `contains(5)` at its last load, after both inserts have returned -/
+def wCont : St := step (step (callContains wDone 2 5) 2) 2
+
+set_option maxRecDepth 100000 in
+example : Reach wSeek ∧ (th wSeek 2).pc = .geq 4 2 0 false ∧ mnext wSeek.heap 0 2 = some 1
+    ∧ ¬ mkey wSeek.heap 1 < 4 ∧ wSeek.inserted = [5, 3] :=
+  ⟨reach_steps wS0_reach wPre, by decide⟩
+
+set_option maxRecDepth 100000 in
+example : Reach wPrev ∧ (th wPrev 2).pc = .lt 5 2 0 ∧ mnext wPrev.heap 0 2 = some 1 ∧ ¬ mkey wPrev.heap 1 < 5 :=
+  ⟨.step 2 (.step 2 (.prev 2 wDone_reach)), by decide⟩
+
+set_option maxRecDepth 100000 in
+example : Reach wLast ∧ (th wLast 2).pc = .last 1 0 ∧ mnext wLast.heap 0 1 = none :=
+  ⟨.step 2 (.step 2 (.prev 2 (.last 2 wDone_reach))), by decide⟩
+
+set_option maxRecDepth 100000 in
+example : Reach (callNext wDone 2) ∧ (th (callNext wDone 2) 2).pc = .nxt 1 :=
+  ⟨.next 2 wDone_reach, by decide⟩
+
+set_option maxRecDepth 100000 in
+example : Reach wCont ∧ Reaches wDone wCont ∧ 5 ∈ wDone.returned ∧ (th wCont 2).pc = .geq 5 2 0 true
+    ∧ mnext wCont.heap 0 2 = some 1 ∧ ¬ mkey wCont.heap 1 < 5 ∧ (th (step wCont 2) 2).found = true :=
+  ⟨.step 2 (.step 2 (.contains 2 5 wDone_reach)), .step 2 (.step 2 (.contains 2 5 .refl)), by decide⟩
+/-- an `Iter` witness: after both inserts have returned, thread 2 iterates from the head
+    (`seek_to_first`, `next`, `next`) and sees 3, 5 -/
+def wIt0 : St := callFirst wDone 2
+def wIt1 : St := callNext (step wIt0 2) 2
+def wIt2 : St := callNext (step wIt1 2) 2
+set_option maxRecDepth 100000 in
+example : ∃ ks, Iter 2 wIt0 0 ks ∧ ks = [3, 5] ∧ Reach wIt0 ∧ Reaches wDone wIt0 ∧ wDone.returned = [5, 3] :=
+  ⟨_, .more (s' := wIt1) (n := 2) (by decide) (by decide) (.next 2 .refl)
+        (.more (s' := wIt2) (n := 1) (by decide) (by decide) (.next 2 .refl) (.done (by decide) (by decide))),
+   by decide, .first 2 wDone_reach, .first 2 .refl, by decide⟩
+end witnesses
+
 /-- `MAX_HEIGHT` of the default instantiation is the source's -/
 example : Reach (init defaultMaxHeight 4) := .init _ _ (by decide)
 end skipml
@@ -140,6 +265,15 @@ theorem level0_sorted_complete {s : St} (h : Reach s) :
 theorem published_stable {s : St} {x : Nat} (h : Published s x) (i : Nat) :
     Published (step s i) x ∧ keyOf (step s i).heap x = keyOf s.heap x :=
   Blue.SkipList.published_stable h i
+
+/-- non-vacuity: a `Reach` run of the level-0 model (one insert of key 5, four steps) — the
+    invariant premise of `Reach.call` is met by `inv_init` -/
+example : Reach ([0, 0, 0, 0].foldl step (call init 0 5 0))
+    ∧ ([0, 0, 0, 0].foldl step (call init 0 5 0)).inserted = [5] := by
+  have h1 : Reach (call init 0 5 0) := by
+    refine .call [] 0 5 0 .init inv_init ⟨rfl, by simp [init], ?_, Or.inl rfl⟩
+    intro j; simp [init, Blue.SkipList.pcKey]
+  exact ⟨.step 0 (.step 0 (.step 0 (.step 0 h1))), by decide⟩
 end skip0
 
 /-! ## prepend-only list -/
@@ -148,14 +282,49 @@ open Blue.ListFree
 variable {D : Type}
 
 /-- `listfree_prepend`: after any schedule of any number of prepending threads the chain from the
-    head is exactly the data whose CAS succeeded, newest first, each once; and an iteration
-    started at any published pointer walks exactly that chain -/
+    head is exactly the data whose CAS succeeded, newest first, each once, and a walk from the head
+    through the heap OF THE SAME STATE yields it.  (An iteration that loaded the head earlier, with
+    prepends going on meanwhile: `iteration_from_old_head` below.) -/
 theorem listfree_prepend (evs : List (Ev D)) :
     ∃ ids, Chain (evs.foldl apply (init : St D)).heap (evs.foldl apply (init : St D)).head ids
         (evs.foldl apply (init : St D)).pushed ∧
       walk (evs.foldl apply (init : St D)).heap (ids.length + 1) (evs.foldl apply (init : St D)).head
         = (evs.foldl apply (init : St D)).pushed :=
   run_contents evs
+
+/-- **`chain_stable`**: a chain whose nodes no thread owns (every node reachable from a pointer that
+    has been the head is such) is the same chain after any further calls and steps of any threads -/
+theorem chain_stable (evs : List (Ev D)) {s : St D} {p : Option Nat} {ids : List Nat} {ds : List D}
+    (hc : Chain s.heap p ids ds) (hf : Frozen s ids) :
+    Chain (evs.foldl apply s).heap p ids ds ∧ Frozen (evs.foldl apply s) ids :=
+  Blue.ListFree.chain_stable evs hc hf
+
+/-- **an iteration that loaded the head earlier**: after any schedule `evs` an iterator loads the
+    head; any further schedule `evs'` runs (more prepends by any threads).  The walk from the
+    pointer it loaded, through the heap as it is AFTERWARDS, yields exactly the data pushed when it
+    loaded the head — newest first, each once — and that list is a suffix of what an iteration from
+    the new head shows: every prepended element appears exactly once in every later iteration -/
+theorem iteration_from_old_head (evs evs' : List (Ev D)) :
+    let s := evs.foldl apply (init : St D)
+    let s' := evs'.foldl apply s
+    ∃ ids : List Nat, walk s'.heap (ids.length + 1) s.head = s.pushed ∧ s.pushed <:+ s'.pushed :=
+  Blue.ListFree.iteration_from_old_head evs evs'
+
+/-- … `next()` by `next()`: each load of that iterator, made in the later state, returns the data and
+    the successor the node had when the head was loaded -/
+theorem iterNext_stable (evs' : List (Ev D)) {s : St D} {p : Nat} {ids : List Nat} {ds : List D}
+    (hc : Chain s.heap (some p) ids ds) (hf : Frozen s ids) :
+    iterNext (evs'.foldl apply s).heap (some p) = iterNext s.heap (some p) :=
+  Blue.ListFree.iterNext_stable evs' hc hf
+
+/-- non-vacuity: thread 0 prepends 1; an iterator loads the head (node 0); thread 1 prepends 2 and
+    thread 0 starts a third prepend; the old pointer still walks `[1]`, the new head walks `[2, 1]` -/
+example :
+    let s := ([.call 0 1, .step 0, .step 0, .step 0, .step 0] : List (Ev Nat)).foldl apply init
+    let s' := ([.call 1 2, .step 1, .step 1, .step 1, .step 1, .call 0 3, .step 0] : List (Ev Nat)).foldl apply s
+    s.head = some 0 ∧ s.pushed = [1] ∧ walk s'.heap 2 s.head = [1] ∧ s'.pushed = [2, 1]
+      ∧ walk s'.heap 3 s'.head = [2, 1] := by
+  decide
 
 /-- non-vacuity: two threads prepend 1 and 2; both read the empty head, thread 1 links first,
     thread 0's CAS fails and it retries: the list is 1, 2 (newest first) -/
@@ -168,18 +337,81 @@ end list
 
 /-! ## an iterator remains valid for as long as it is held (repaired ownership, D-4) -/
 section life
+
+/-- **no use after free**: along every run of handle events from a fresh list — iterators opened,
+    cloned, dropped, the list dropped, inserts, dereferences through iterators, in any order — no
+    event dereferences nodes after a node has been released (`Blue.SkipOwn`: reference count and
+    released set updated by the events; an invariant over `step`) -/
+theorem no_use_after_free (ops : List Blue.SkipLife.Op) {s : Blue.SkipOwn.St}
+    (hr : Blue.SkipOwn.run false {} ops = some s) : s.uaf = false :=
+  Blue.SkipOwn.no_use_after_free ops hr
+
+/-- … at the event: a dereference enabled in a reachable state finds every node unreleased -/
+theorem deref_finds_all_nodes (ops : List Blue.SkipLife.Op) {s s' : Blue.SkipOwn.St}
+    (hr : Blue.SkipOwn.run false {} ops = some s) (op : Blue.SkipLife.Op)
+    (hop : (∃ j, op = .use j) ∨ op = .insert) (hs : Blue.SkipOwn.step false s op = some s') : s.freed = [] :=
+  Blue.SkipOwn.deref_finds_all_nodes ops hr op hop hs
+
+/-- nothing is released while a handle (list or iterator) exists, every node once none does -/
+theorem freed_iff_no_holder (ops : List Blue.SkipLife.Op) {s : Blue.SkipOwn.St}
+    (hr : Blue.SkipOwn.run false {} ops = some s) :
+    (Blue.SkipLife.holders (Blue.SkipOwn.abs s) ≠ 0 → s.freed = []) ∧
+    (Blue.SkipLife.holders (Blue.SkipOwn.abs s) = 0 → s.freed = List.range s.nodes) :=
+  Blue.SkipOwn.freed_iff_no_holder ops hr
+
+/-- the only event that releases nodes is the drop of the last holder -/
+theorem release_only_at_last_drop (ops : List Blue.SkipLife.Op) {s s' : Blue.SkipOwn.St}
+    (hr : Blue.SkipOwn.run false {} ops = some s) (op : Blue.SkipLife.Op)
+    (hs : Blue.SkipOwn.step false s op = some s') (hbefore : s.freed = []) (hafter : s'.freed ≠ []) :
+    (op = .dropList ∨ ∃ j, op = .dropIter j) ∧ Blue.SkipLife.holders (Blue.SkipOwn.abs s) = 1
+      ∧ Blue.SkipLife.holders (Blue.SkipOwn.abs s') = 0 :=
+  Blue.SkipOwn.release_only_at_last_drop ops hr op hs hbefore hafter
+
+/-- **bridge to the model the check replays** (`skip life` requests: `Blue.SkipLife.step`, `live`
+    compared with the allocation registry after every op): each of its runs is the handle part of a
+    run of the transition system, and `live` is the number of nodes that system has not released -/
+theorem life_refines (ops : List Blue.SkipLife.Op) {t : Blue.SkipLife.St}
+    (hr : Blue.SkipOwn.lifeRun {} ops = some t) :
+    ∃ s, Blue.SkipOwn.run false {} ops = some s ∧ Blue.SkipOwn.abs s = t
+      ∧ Blue.SkipLife.live t = Blue.SkipOwn.liveNodes s ∧ s.uaf = false :=
+  Blue.SkipOwn.life_refines ops hr
+
+/-- **finding D-4 as a theorem about the ownership as it was**: `SkipList::drop` released every node
+    while an iterator still shared the head pointer — the next dereference is a use after free;
+    the same schedule under the repaired ownership keeps every node until the iterator goes -/
+theorem use_after_free_as_found :
+    (Blue.SkipOwn.run true {} [.insert, .insert, .iter, .dropList, .use 0]).map (fun s => (s.uaf, s.freed))
+      = some (true, [0, 1, 2])
+    ∧ (Blue.SkipOwn.run false {} [.insert, .insert, .iter, .dropList, .use 0]).map (fun s => (s.uaf, s.freed, s.rc))
+      = some (false, [], 1)
+    ∧ (Blue.SkipOwn.run false {} [.insert, .insert, .iter, .dropList, .use 0, .dropIter 0]).map
+        (fun s => (s.uaf, s.freed, s.rc)) = some (false, [0, 1, 2], 0) :=
+  Blue.SkipOwn.use_after_free_as_found
+
+/-- non-vacuity: an iterator and its clone outlive the list; an insert through the dropped list
+    handle is refused; a dereference is enabled with nothing released; the last drop releases all -/
+example :
+    Blue.SkipOwn.run false {} [.insert, .iter, .insert, .cloneIter 0, .dropList, .use 1, .dropIter 0, .insert, .use 1] = none
+    ∧ (Blue.SkipOwn.run false {} [.insert, .iter, .insert, .cloneIter 0, .dropList, .use 1, .dropIter 0, .use 1]).map
+        (fun s => (s.rc, s.freed, s.uaf)) = some (1, [], false)
+    ∧ (Blue.SkipOwn.run false {} [.insert, .iter, .insert, .cloneIter 0, .dropList, .use 1, .dropIter 0, .use 1,
+        .dropIter 1]).map (fun s => (s.rc, s.freed, s.uaf)) = some (0, [0, 1, 2], false) := by
+  decide
+
 open Blue.SkipLife
 
-/-- while a handle (the list or any iterator) is held, no node has been released -/
+/-- MODEL FACT (definitional): `Blue.SkipLife.live s` is *defined* as `if holders s = 0 then 0 else
+    s.nodes`; this unfolds the definition for an arbitrary state (no transition system, no
+    reachability).  The property content is `no_use_after_free` / `freed_iff_no_holder` above. -/
 theorem iterator_keeps_nodes_alive (s : St) (j : Nat) (h : held s j = true) : live s = s.nodes :=
   held_live s j h
 
-/-- nodes are released exactly when the last holder (list or iterator) is gone -/
+/-- MODEL FACT (definitional), as above -/
 theorem nodes_released_with_last_holder (s : St) : live s = 0 ↔ (holders s = 0 ∨ s.nodes = 0) :=
   released_iff s
 
-/-- non-vacuity: the list is dropped while an iterator is held, the iterator is used, then dropped:
-    the nodes are alive until the last holder is gone -/
+/-- the run the driver replays: the list is dropped while an iterator is held, the iterator is
+    used, then dropped: the nodes are alive until the last holder is gone -/
 example : ([Op.insert, .insert, .iter, .dropList, .use 0, .dropIter 0].foldl
     (fun (acc : Option St × List Nat) op => match acc.1.bind (step · op) with
       | some s' => (some s', acc.2 ++ [live s'])
@@ -192,6 +424,15 @@ end Blue.Props.C17
 #print axioms Blue.Props.C17.upper_levels_are_subchains
 #print axioms Blue.Props.C17.returned_insert_is_linked
 #print axioms Blue.Props.C17.linked_stays_linked
+#print axioms Blue.Props.C17.linked_stays_linked_run
+#print axioms Blue.Props.C17.reaches_is_reach_closure
+#print axioms Blue.Props.C17.returned_stays_linked
+#print axioms Blue.Props.C17.contains_answer
+#print axioms Blue.Props.C17.returned_found_by_later_contains
+#print axioms Blue.Props.C17.returned_found_by_later_seek
+#print axioms Blue.Props.C17.returned_in_later_chain
+#print axioms Blue.Props.C17.iteration_complete
+#print axioms Blue.Props.C17.full_iteration_shows_returned
 #print axioms Blue.Props.C17.no_assertion_fires
 #print axioms Blue.Props.C17.iterator_moves_seek
 #print axioms Blue.Props.C17.iterator_moves_next
@@ -202,6 +443,15 @@ end Blue.Props.C17
 #print axioms Blue.Props.C17.level0_sorted_complete
 #print axioms Blue.Props.C17.published_stable
 #print axioms Blue.Props.C17.listfree_prepend
+#print axioms Blue.Props.C17.chain_stable
+#print axioms Blue.Props.C17.iteration_from_old_head
+#print axioms Blue.Props.C17.iterNext_stable
+#print axioms Blue.Props.C17.no_use_after_free
+#print axioms Blue.Props.C17.deref_finds_all_nodes
+#print axioms Blue.Props.C17.freed_iff_no_holder
+#print axioms Blue.Props.C17.release_only_at_last_drop
+#print axioms Blue.Props.C17.life_refines
+#print axioms Blue.Props.C17.use_after_free_as_found
 #print axioms Blue.Props.C17.iterator_keeps_nodes_alive
 #print axioms Blue.Props.C17.nodes_released_with_last_holder
 #print axioms Blue.ConstsTie.skipfree_default_max_height
